@@ -155,7 +155,7 @@ Hypothesis Hgz : forall l b, gunzip (gz l b) = GzOk b.
 Variable slice : B -> N -> N -> option B.
 
 Variable c : cfg.
-Variable ex : path -> bool.
+Variable fm : path -> bool.        (* the form in which each name is held *)
 Variable U X : list path.
 Hypothesis Hbase : cleanb (base c) = true.
 Hypothesis HU : forall n, In n U -> n <> [] /\ cleanb n = true /\ gzfree n = true.
@@ -171,9 +171,9 @@ Hypothesis Hrw : s_rewrite sc = negb (flat c).
 Hypothesis Hgs : s_gzip_static sc = true.
 Definition base_url : list N := s_origin sc ++ dpath ++ [slash].
 
-Notation Inv := (Inv B plain gz c ex U).
-Notation phys := (phys c ex).
-Notation zipped := (zipped c ex).
+Notation Inv := (Inv B plain gz c U fm).
+Notation phys := (phys c fm).
+Notation zipped := (zipped fm).
 
 Definition out_data (o : outcome (resval B)) : outcome B :=
   match o with
@@ -198,7 +198,7 @@ Proof. intros t p1 p2 m0 r H. unfold serve_parts. rewrite H. reflexivity. Qed.
 Lemma serve_finds : forall t m n, Inv t m -> In n U ->
   serve_parts B (plain []) slice sc t (ne_parts dpath ++ n) GET None =
   match aget m n with
-  | Some b => Resp 200 (zipped n) (enc B plain gz c ex n b)
+  | Some b => Resp 200 (zipped n) (enc B plain gz c fm n b)
   | None => Resp 404 false (plain [])
   end
   \/ s_rewrite sc = true /\ flat_axes (last n []) <> None.
@@ -218,26 +218,26 @@ Proof.
     assert (Hcp : cleanb (base c ++ n) = true) by (apply probe_clean; assumption).
     unfold file_at. rewrite (has_dotdot_clean _ Hcg), (has_dotdot_clean _ Hcp).
     rewrite with_gz_app by exact Hne.
-    pose proof (i_phys B plain gz c ex U t m HI n Hn) as Hph.
+    pose proof (i_phys B plain gz c U fm t m HI n Hn) as Hph.
     unfold StRefineProofs.phys, relphys in Hph.
     destruct (aget m n) as [b|] eqn:Eg.
-    + destruct (StRefineProofs.zipped c ex n) eqn:Ez.
+    + destruct (StRefineProofs.zipped fm n) eqn:Ez.
       * rewrite Hph. unfold enc. rewrite Ez. reflexivity.
       * assert (Hnone : forall d, lookup B t (base c ++ with_gz n) <> Some (File d)).
-        { intros d Hl. destruct (i_files B plain gz c ex U t m HI _ d Hl (prefix_app _ _)) as [s [Hs E]].
+        { intros d Hl. destruct (i_files B plain gz c U fm t m HI _ d Hl (prefix_app _ _)) as [s [Hs E]].
           unfold StRefineProofs.phys in E. apply app_inv_head in E. symmetry in E.
-          apply (relphys_eq_gz c ex U HU) in E as [-> Hz]; auto. congruence. }
+          apply (relphys_eq_gz U HU fm) in E as [-> Hz]; auto. congruence. }
         destruct (lookup B t (base c ++ with_gz n)) as [[d|]|] eqn:El;
           [exfalso; exact (Hnone d eq_refl) | |]; rewrite Hph; unfold enc; rewrite Ez; reflexivity.
     + assert (Hnone1 : forall d, lookup B t (base c ++ with_gz n) <> Some (File d)).
-      { intros d Hl. destruct (i_files B plain gz c ex U t m HI _ d Hl (prefix_app _ _)) as [s [Hs E]].
+      { intros d Hl. destruct (i_files B plain gz c U fm t m HI _ d Hl (prefix_app _ _)) as [s [Hs E]].
         unfold StRefineProofs.phys in E. apply app_inv_head in E. symmetry in E.
-        apply (relphys_eq_gz c ex U HU) in E as [-> Hz]; auto.
+        apply (relphys_eq_gz U HU fm) in E as [-> Hz]; auto.
         rewrite Hz in Hph. congruence. }
       assert (Hnone2 : forall d, lookup B t (base c ++ n) <> Some (File d)).
-      { intros d Hl. destruct (i_files B plain gz c ex U t m HI _ d Hl (prefix_app _ _)) as [s [Hs E]].
+      { intros d Hl. destruct (i_files B plain gz c U fm t m HI _ d Hl (prefix_app _ _)) as [s [Hs E]].
         unfold StRefineProofs.phys in E. apply app_inv_head in E. symmetry in E.
-        apply (relphys_eq_free c ex U HU) in E as [-> Hz]; auto.
+        apply (relphys_eq_free U HU fm) in E as [-> Hz]; auto.
         rewrite Hz in Hph. congruence. }
       destruct (lookup B t (base c ++ with_gz n)) as [[d|]|] eqn:El1;
         [exfalso; exact (Hnone1 d eq_refl) | |];
@@ -250,26 +250,26 @@ Proof.
     assert (Hcp : cleanb (base c ++ n) = true) by (apply probe_clean; assumption).
     unfold file_at. rewrite (has_dotdot_clean _ Hcg), (has_dotdot_clean _ Hcp).
     rewrite with_gz_app by exact Hne.
-    pose proof (i_phys B plain gz c ex U t m HI n Hn) as Hph.
+    pose proof (i_phys B plain gz c U fm t m HI n Hn) as Hph.
     unfold StRefineProofs.phys, relphys in Hph.
     destruct (aget m n) as [b|] eqn:Eg.
-    + destruct (StRefineProofs.zipped c ex n) eqn:Ez.
+    + destruct (StRefineProofs.zipped fm n) eqn:Ez.
       * rewrite Hph. unfold enc. rewrite Ez. reflexivity.
       * assert (Hnone : forall d, lookup B t (base c ++ with_gz n) <> Some (File d)).
-        { intros d Hl. destruct (i_files B plain gz c ex U t m HI _ d Hl (prefix_app _ _)) as [s [Hs E]].
+        { intros d Hl. destruct (i_files B plain gz c U fm t m HI _ d Hl (prefix_app _ _)) as [s [Hs E]].
           unfold StRefineProofs.phys in E. apply app_inv_head in E. symmetry in E.
-          apply (relphys_eq_gz c ex U HU) in E as [-> Hz]; auto. congruence. }
+          apply (relphys_eq_gz U HU fm) in E as [-> Hz]; auto. congruence. }
         destruct (lookup B t (base c ++ with_gz n)) as [[d|]|] eqn:El;
           [exfalso; exact (Hnone d eq_refl) | |]; rewrite Hph; unfold enc; rewrite Ez; reflexivity.
     + assert (Hnone1 : forall d, lookup B t (base c ++ with_gz n) <> Some (File d)).
-      { intros d Hl. destruct (i_files B plain gz c ex U t m HI _ d Hl (prefix_app _ _)) as [s [Hs E]].
+      { intros d Hl. destruct (i_files B plain gz c U fm t m HI _ d Hl (prefix_app _ _)) as [s [Hs E]].
         unfold StRefineProofs.phys in E. apply app_inv_head in E. symmetry in E.
-        apply (relphys_eq_gz c ex U HU) in E as [-> Hz]; auto.
+        apply (relphys_eq_gz U HU fm) in E as [-> Hz]; auto.
         rewrite Hz in Hph. congruence. }
       assert (Hnone2 : forall d, lookup B t (base c ++ n) <> Some (File d)).
-      { intros d Hl. destruct (i_files B plain gz c ex U t m HI _ d Hl (prefix_app _ _)) as [s [Hs E]].
+      { intros d Hl. destruct (i_files B plain gz c U fm t m HI _ d Hl (prefix_app _ _)) as [s [Hs E]].
         unfold StRefineProofs.phys in E. apply app_inv_head in E. symmetry in E.
-        apply (relphys_eq_free c ex U HU) in E as [-> Hz]; auto.
+        apply (relphys_eq_free U HU fm) in E as [-> Hz]; auto.
         rewrite Hz in Hph. congruence. }
       destruct (lookup B t (base c ++ with_gz n)) as [[d|]|] eqn:El1;
         [exfalso; exact (Hnone1 d eq_refl) | |];
@@ -280,7 +280,7 @@ Qed.
 (* the client on such a response *)
 Lemma client_on_found : forall n m,
   (match (match aget m n with
-          | Some b => Resp 200 (zipped n) (enc B plain gz c ex n b)
+          | Some b => Resp 200 (zipped n) (enc B plain gz c fm n b)
           | None => Resp 404 false (plain [])
           end) with
    | ConnErr => AccessErr
@@ -291,7 +291,7 @@ Lemma client_on_found : forall n m,
 Proof.
   intros n m. unfold spec_fetch. destruct (aget m n) as [b|]; [|reflexivity].
   simpl is_error_status. cbv iota. unfold content, enc.
-  destruct (StRefineProofs.zipped c ex n); [rewrite Hgz|]; reflexivity.
+  destruct (StRefineProofs.zipped fm n); [rewrite Hgz|]; reflexivity.
 Qed.
 
 Lemma url_parts_rel : forall rel,
@@ -321,7 +321,7 @@ Qed.
 (* chunks: the flat URL, through the documented server, gives what the local
    accessor gives (scale keys as generated: one component) *)
 Theorem http_eq_local_chunk : forall t m key co,
-  Inv t m -> simple_comp key = true -> op_ok c ex U X (OFetchChunk key co) -> nonneg co ->
+  Inv t m -> simple_comp key = true -> op_ok c U X (OFetchChunk key co) -> nonneg co ->
   fst (hrun B (serve B (plain []) slice sc t) 0
             (http_fetch_chunk B plain gunzip base_url key co))
   = out_data (fst (run_op B plain gz gunzip c t (OFetchChunk key co))).
@@ -330,7 +330,7 @@ Proof.
   destruct (Hin' [key] (spec_key_simple key Hk)) as [Hin Hoth].
   replace ([key] ++ spec_chunk_tail (flat c) co) with (spec_chunk_rel (flat c) key co) in Hin
     by (destruct (flat c); reflexivity).
-  destruct (op_refines B plain gz gunzip Hgz c ex U X Hbase HU HPF HX t m _ HI Hok) as [t' [Hr _]].
+  destruct (op_refines B plain gz gunzip Hgz c U X Hbase HU HPF HX fm t m _ HI Hok) as [t' [fm' [Hr _]]].
   rewrite Hr. unfold spec_op. simpl op_name. rewrite (chunk_name_simple (flat c) key co Hk). cbv iota. simpl fst.
   apply simple_comp_facts in Hk as [Hns [Hkeep [_ Hkne]]].
   unfold http_fetch_chunk, http_fetch_file. simpl hrun. unfold serve. simpl r_url.
@@ -343,7 +343,7 @@ Proof.
                      (ne_parts dpath ++ [key] ++ [spec_flat_name co]) GET None
                    = match aget m (spec_chunk_rel (flat c) key co) with
                      | Some b => Resp 200 (zipped (spec_chunk_rel (flat c) key co))
-                                      (enc B plain gz c ex (spec_chunk_rel (flat c) key co) b)
+                                      (enc B plain gz c fm (spec_chunk_rel (flat c) key co) b)
                      | None => Resp 404 false (plain [])
                      end).
   { destruct (Bool.bool_dec (flat c) true) as [Ef|Ef]; [|apply not_true_is_false in Ef].
@@ -368,15 +368,15 @@ Proof.
   | |- context [serve_parts B ?e slice sc t ?p GET None] =>
       replace (serve_parts B e slice sc t p GET None)
         with (match aget m (spec_chunk_rel (flat c) key co) with
-              | Some b => Resp 200 (StRefineProofs.zipped c ex (spec_chunk_rel (flat c) key co))
-                               (enc B plain gz c ex (spec_chunk_rel (flat c) key co) b)
+              | Some b => Resp 200 (StRefineProofs.zipped fm (spec_chunk_rel (flat c) key co))
+                               (enc B plain gz c fm (spec_chunk_rel (flat c) key co) b)
               | None => Resp 404 false (plain [])
               end) by (symmetry; exact Hserve)
   end.
   unfold spec_fetch.
   destruct (aget m (spec_chunk_rel (flat c) key co)) as [b|]; [|reflexivity].
   simpl is_error_status. cbv iota. unfold content, enc.
-  destruct (StRefineProofs.zipped c ex (spec_chunk_rel (flat c) key co)); [rewrite Hgz|]; reflexivity.
+  destruct (StRefineProofs.zipped fm (spec_chunk_rel (flat c) key co)); [rewrite Hgz|]; reflexivity.
 Qed.
 
 (* files (info, meshes, ...): URL-safe relative names without "." components *)
@@ -387,16 +387,16 @@ Theorem http_eq_local_file : forall t m name n,
   = out_data (fst (run_op B plain gz gunzip c t (OFetchFile name))).
 Proof.
   intros t m name n HI Hrel Hsn Hnp Hin Hnr.
-  assert (Hok : op_ok c ex U X (OFetchFile name)).
+  assert (Hok : op_ok c U X (OFetchFile name)).
   { split; [exact Hrel|]. intros p Hp. rewrite Hsn in Hp. inversion Hp; subst. exact Hin. }
-  destruct (op_refines B plain gz gunzip Hgz c ex U X Hbase HU HPF HX t m _ HI Hok) as [t' [Hr _]].
+  destruct (op_refines B plain gz gunzip Hgz c U X Hbase HU HPF HX fm t m _ HI Hok) as [t' [fm' [Hr _]]].
   rewrite Hr. unfold spec_op. simpl op_name. rewrite Hsn. simpl fst.
   unfold http_fetch_file. simpl hrun. unfold serve. simpl r_url.
   rewrite url_parts_rel, Hnp. simpl r_meth. simpl r_range.
   destruct (serve_finds t m n HI Hin) as [H | [H1 H2]].
   - rewrite H. unfold spec_fetch. destruct (aget m n) as [b|]; [|reflexivity].
     simpl is_error_status. cbv iota. unfold content, enc.
-    destruct (StRefineProofs.zipped c ex n); [rewrite Hgz|]; reflexivity.
+    destruct (StRefineProofs.zipped fm n); [rewrite Hgz|]; reflexivity.
   - destruct Hnr as [Hnr | Hnr]; [congruence | contradiction].
 Qed.
 
